@@ -107,6 +107,8 @@ def boundary(bits, r, n):
     for k in range(bits):
         vals.add(1 << k)
         vals.add(((1 << bits) - 1) ^ (1 << k))
+    if n >= 1 << bits:
+        return list(range(1 << bits))      # the whole domain
     while len(vals) < n:
         vals.add(r.getrandbits(bits))
     return sorted(vals)
